@@ -37,3 +37,64 @@ def iterator_once(rows):
     cells = [r.strip() for r in rows]
     widths = [len(c) for c in cells]
     return widths, list(cells)
+
+
+def or_default(ts, start=None):
+    start = start or ts.first
+    return start
+
+
+def none_default(ts, start=None):
+    start = ts.first if start is None else start
+    return start
+
+
+def unused_loop_variable(tree, nodes):
+    total = 0
+    for u in nodes:
+        for v in tree.children(u):
+            total += tree.time(u)
+    return total
+
+
+def where_tuple(a):
+    idx = np.where(a > 0)
+    return len(idx)
+
+
+def where_array(a):
+    idx = np.where(a > 0)[0]
+    return len(idx)
+
+
+def inplace_view(ts, offset):
+    left = ts.edges_left
+    left -= offset
+    return left
+
+
+def inplace_copy(ts, offset):
+    left = ts.edges_left.copy()
+    left -= offset
+    return left
+
+
+def inplace_param(mask, i):
+    mask[i] = False
+    return mask
+
+
+def tree_reuse(ts):
+    return list(ts.trees())
+
+
+def tree_copy(ts):
+    return [t.copy() for t in ts.trees()]
+
+
+def set_order(labels):
+    return [x for x in set(labels)]
+
+
+def sorted_set(labels):
+    return [x for x in sorted(set(labels))]
